@@ -780,6 +780,7 @@ func (c *Client) receipts(ctx context.Context, url string, bm blockmap, start, l
 		const tag = "eth_getBlockReceipts requested %d blocks got %d results"
 		return fmt.Errorf(tag, limit, len(resps))
 	}
+	answered := make(map[uint64]struct{}, limit)
 	for i := range resps {
 		if resps[i].Result == nil {
 			const tag = "eth_getBlockReceipts missing result for block %d"
@@ -802,6 +803,13 @@ func (c *Client) receipts(ctx context.Context, url string, bm blockmap, start, l
 		if !ok {
 			return fmt.Errorf("block not found")
 		}
+		// Every request of the batch is for another block: two
+		// results for one block mean that another got none.
+		if _, dup := answered[blockNum]; dup {
+			const tag = "eth_getBlockReceipts several results for block %d"
+			return fmt.Errorf(tag, blockNum)
+		}
+		answered[blockNum] = struct{}{}
 		if len(b.Header.Hash) == 32 && !bytes.Equal(b.Header.Hash, resps[i].Result[0].BlockHash) {
 			const tag = "eth_getBlockReceipts block hash mismatch. num=%d header=%.4x receipts=%.4x"
 			return fmt.Errorf(tag, blockNum, b.Header.Hash, resps[i].Result[0].BlockHash)
